@@ -4,8 +4,10 @@ import (
 	"encoding/json"
 	"fmt"
 	"os"
+	"runtime"
 	"runtime/debug"
 	"testing"
+	"time"
 )
 
 type vpReplay struct {
@@ -55,8 +57,35 @@ func vpRunOne(r vpReplay) (out vpOutcome) {
 		out.Status = "nosuchharness"
 		return
 	}
+	vpAllocBase = vpTotalAlloc()
 	f(r.Args)
 	return
+}
+
+// vpRunGuarded runs one replay under a watchdog: a run that is still going
+// after 20 s, or whose live heap passes 1.5 GiB, is reported as a hang (the
+// inputs are at most a few hundred octets) and the process exits.
+func vpRunGuarded(r vpReplay) vpOutcome {
+	done := make(chan vpOutcome, 1)
+	go func() { done <- vpRunOne(r) }()
+	t0 := time.Now()
+	tick := time.NewTicker(20 * time.Millisecond)
+	defer tick.Stop()
+	for {
+		select {
+		case o := <-done:
+			return o
+		case <-tick.C:
+			var m runtime.MemStats
+			runtime.ReadMemStats(&m)
+			if time.Since(t0) > 20*time.Second || m.HeapAlloc > 1500<<20 {
+				o := vpOutcome{ID: r.ID, Status: "hang", Msg: fmt.Sprintf("still running after %.1fs with %d MiB of live heap", time.Since(t0).Seconds(), m.HeapAlloc>>20)}
+				j, _ := json.Marshal(o)
+				fmt.Printf("VPRESULT %s\n", j)
+				os.Exit(0)
+			}
+		}
+	}
 }
 
 func TestVPReplay(t *testing.T) {
@@ -73,7 +102,7 @@ func TestVPReplay(t *testing.T) {
 		t.Fatal(err)
 	}
 	for _, r := range list {
-		o := vpRunOne(r)
+		o := vpRunGuarded(r)
 		j, _ := json.Marshal(o)
 		fmt.Printf("VPRESULT %s\n", j)
 	}
